@@ -28,6 +28,7 @@ fn write_stats(job: &Value, out: &mut Out, done: bool) {
 }
 
 fn profile_name() -> &'static str { if cfg!(debug_assertions) { "debug" } else { "release" } }
+// (the `unopt` profile reports itself as "debug": it differs from it only in the optimisation level)
 
 fn run_replay(job: &Value) {
     let v = vocab::Vocab::load(job["vocab"].as_str().unwrap());
@@ -363,7 +364,7 @@ fn main() {
             "loops" => {
                 let v = vocab::Vocab::load(job["vocab"].as_str().unwrap());
                 let mut out = open_out(&job, profile_name());
-                if job["shapes"].as_bool().unwrap_or(false) { loops::deep_shapes(&mut out, &v, job["e"].as_str().unwrap()); }
+                if job["shapes"].as_bool().unwrap_or(false) { loops::deep_shapes(&mut out, &v, job["e"].as_str().unwrap(), job["thread_stack"].as_u64().unwrap_or(0) as usize, job["hb"].as_str().map(|h| format!("{}.input", h)), job["start"].as_u64().unwrap_or(0)); }
                 else { loops::run(&mut out, &v, job["e"].as_str().unwrap(), job["shard"].as_u64().unwrap_or(0), job["nshards"].as_u64().unwrap_or(1), job["start"].as_u64().unwrap_or(0)); }
                 out.heartbeat(u64::MAX);
                 write_stats(&job, &mut out, true);
